@@ -109,8 +109,11 @@ class Builder:
         if ref in PRIM_PORTS:
             call = getattr(h.primitives, ref)()
         else:
+            # (parameters as a dict only where the design gives this leaf parameter values: a call with dict parameters cannot itself be a
+            #  generator parameter, which C19's unit cells are)
+            haspv = any(i.get("pv") and i["of"].get("ref") == ref for m in self.D["mods"].values() for i in m["insts"])
             em = h.ExternalModule(name=ref, port_list=[h.Port(name=p["n"], width=p["w"]) for p in ports],
-                                  desc="leaf", domain="verif", paramtype=dict)
+                                  desc="leaf", domain="verif", **({"paramtype": dict} if haspv else {}))
             call = em()
             self.exts[ref] = em
         self.leaves[ref] = call
